@@ -1,3 +1,4 @@
+import JadeModel.Proofs.SystemGen
 import JadeModel.Props.C01
 import JadeModel.Props.C02
 
